@@ -69,7 +69,68 @@ def c17(tier, seed):
     return check('C17', tier, seed, runs, keyfilter=pref('c17:'), assumptions=ASSUME_COMMON + [
         'phrase length is a sum of independent per-position terms, so per-position maxima over admissible indices give the exact worst case'])
 
-CHECKS = {'C01': c01, 'C02': c02, 'C03': c03, 'C04': c04, 'C05': c05, 'C06': c06, 'C07': c07, 'C08': c08, 'C11': c11, 'C17': c17}
+def e1_cov(results):
+    out = {}
+    for r, res in results:
+        if r.prog == 'e1_bfs':
+            out.setdefault('e1', []).append({k[3:]: v for k, v in res.items() if k.startswith('e1_')} | {'run': res['_label']})
+    return out
+
+def e1_exhaustive_post(results):
+    # a capped / unfinished search is not a violation, but must not be called exhaustive: handled through timed_out of the part
+    return []
+
+def c10(tier, seed):
+    runs = [Run('e1_bfs', 'asan', ['feat'])]
+    return check('C10', tier, seed, runs, keyfilter=pref('c10:', 'c13:', 'c15:', 'harness:'), extra_cov=e1_cov, assumptions=ASSUME_COMMON + [
+        'alphabet: enable_features over 14 arguments (all 8 masks + arguments with higher bits), create over 13 feature arguments, reload, recode (explicit/auto), crypt, free; in every state all 32 five-bit feature values are tried at load, decode_explicit, decode and 16 arguments at create'])
+
+def c12(tier, seed):
+    runs = [Run('e1_bfs', 'asan', ['crypt']), Run('e2_crypt', 'asan', [])]
+    return check('C12', tier, seed, runs, keyfilter=pref('c12:', 'c13:', 'c15:', 'c14:', 'harness:'), extra_cov=e1_cov, assumptions=ASSUME_COMMON + [
+        'passwords: empty, ASCII, e-acute composed / decomposed, half-width and full-width katakana KA (compatibility-equivalent), 400 x; the KDF stub derives the mask from the exact password bytes it receives, so equal results <=> equal normalised passwords',
+        'passwords longer than sizeof(polyseed_str)-1 bytes after normalisation are outside the claim (the library cuts them)'])
+
+def c13(tier, seed):
+    if tier == 'quick':
+        runs = [Run('e1_bfs', 'asan', ['api', '2'])]
+    else:
+        runs = [Run('e1_bfs', 'asan', ['api', '2']), Run('e1_bfs', 'plain', ['api', '3']), Run('e1_bfs', 'dbg', ['crypt'])]
+    return check('C13', tier, seed, runs, keyfilter=pref('c13:', 'c10:', 'c12:', 'c14:', 'c18:', 'harness:'), extra_cov=e1_cov, assumptions=ASSUME_COMMON + [
+        'alphabet (closed, so the search reaches a fixpoint): create with 3 feature arguments, free, free(NULL), crypt with 2 passwords, store/load into an empty slot, encode/decode into an empty slot (en auto, ko coin 2047 explicit, zh_s auto), enable_features {0,1,7}, re-injection of two dependency tables (B: different random source and clock, libc time/malloc/free), arming an allocation fault; 2 seed slots (thorough: 3)',
+        'state key = library writable sections + raw bytes of every live seed block + environment; a change that introduces hidden state only grows the state space'])
+
+def c15(tier, seed):
+    runs = [Run('e1_bfs', 'asan', ['api', '2']), Run('e2_fault', 'asan', []), Run('e1_bfs', 'asan', ['inject'])]
+    if tier == 'thorough':
+        runs.append(Run('e1_bfs', 'plain', ['api', '3']))
+    def cov(results):
+        c = e1_cov(results)
+        ft = sum(res.get('e1_fault_transitions', 0) for _, res in results)
+        fd = sum(res.get('e1_fault_distinct', 0) for _, res in results) + sum(res.get('fault_distinct_triples', 0) for _, res in results)
+        e2 = sum(p['cases'] for r, res in results if r.prog == 'e2_fault' for p in res['parts'])
+        c.update({'evaluations': ft + e2, 'distinct_nontrivial': fd,
+                  'rule': 'evaluations = API calls executed with a failing allocation request armed that actually reached the request (E1 transitions out of armed states) plus the entry-point x outcome-class x fail_at cases of e2_fault; distinct_nontrivial = distinct (operation, resulting status) pairs observed under a fired fault in E1 plus distinct (entry point, status, fail_at) triples in e2_fault'})
+        return c
+    return check('C15', tier, seed, runs, level='fault_enumeration', keyfilter=pref('c15:', 'c16:free', 'harness:'), extra_cov=cov, assumptions=ASSUME_COMMON + [
+        'every library call makes at most one allocation request (asserted on every transition), so "every choice of which requests fail" is one boolean per call; faults may be armed repeatedly along a history (no bound)',
+        'allocator: blocks are filled with 0xDD junk, never zero; ledger detects unknown, repeated and NULL frees'])
+
+def c18(tier, seed):
+    runs = [Run('e1_bfs', 'asan', ['inject']), Run('e2_tape', 'asan', []), Run('e1_bfs', 'asan', ['api', '2'])]
+    def audit(results):
+        d = build.lib_dir('plain')
+        und = [l.split()[-1] for l in open(d + '/undefined.txt') if l.strip()]
+        allowed = {'malloc', 'free', 'time', 'memcpy', 'memset', 'memcmp', 'bcmp', 'memmove', 'strcmp', 'strlen', 'bsearch', '__assert_fail', '__stack_chk_fail', '_GLOBAL_OFFSET_TABLE_'}
+        bad = [u for u in und if u not in allowed]
+        audit.info = {'undefined_symbols_of_library': und}
+        return [{'key': 'c18:link:%s' % u, 'replay': '', 'msg': 'the library references the external symbol %s, which is not an injected dependency nor one of the permitted libc helpers' % u} for u in bad]
+    def cov(results):
+        c = e1_cov(results); c['link_audit'] = getattr(audit, 'info', {}); return c
+    return check('C18', tier, seed, runs, keyfilter=pref('c18:', 'harness:'), post=audit, extra_cov=cov, assumptions=ASSUME_COMMON + [
+        'link audit: the undefined symbols of the merged library object (plain build) must be a subset of {malloc, free, time, mem*/str* helpers, bsearch, assert/stack-protector helpers}; malloc/free/time are redirected to counting wrappers'])
+
+CHECKS = {'C10': c10, 'C12': c12, 'C13': c13, 'C15': c15, 'C18': c18, 'C01': c01, 'C02': c02, 'C03': c03, 'C04': c04, 'C05': c05, 'C06': c06, 'C07': c07, 'C08': c08, 'C11': c11, 'C17': c17}
 
 def setup():
     for m in ('plain', 'asan'):
@@ -80,8 +141,11 @@ def setup():
     return 0
 
 SETUP_PROGS = [('e2_phrase', ['asan']), ('e2_gf', ['plain', 'asan']), ('e2_kdf', ['plain', 'asan']), ('e2_coin', ['asan']),
-               ('e2_storage', ['asan']), ('e2_words', ['asan']), ('e2_prefix', ['asan']), ('e2_birthday', ['asan']), ('e2_maxlen', ['asan'])]
+               ('e2_storage', ['asan']), ('e2_words', ['asan']), ('e2_prefix', ['asan']), ('e2_birthday', ['asan']), ('e2_maxlen', ['asan']),
+               ('e1_bfs', ['asan']), ('e2_crypt', ['asan']), ('e2_tape', ['asan']), ('e2_fault', ['asan'])]
 ENGINES = [
+ {'name': 'E1', 'path': 'harness/e1_bfs.c', 'serves_properties': ['C10', 'C12', 'C13', 'C15', 'C18'],
+  'kind_free_text': 'explicit-state breadth-first search over API histories on the real library to fixpoint; states rebuilt by replay, de-duplicated on library sections + live seed bytes + environment; every transition compared with the reference model, observation battery in every new state; allocation faults as a state component'},
  {'name': 'E2', 'path': 'harness/e2_*.c', 'serves_properties': ['C01', 'C02', 'C03', 'C04', 'C05', 'C06', 'C07', 'C08', 'C11', 'C17'],
   'kind_free_text': 'bounded exhaustive enumeration of finite input factors, every case executed on the real API (ASan+UBSan build) and compared with the reference model'},
 ]
@@ -94,6 +158,21 @@ META = {
  'C03': dict(engine='E2', design_ref='DESIGN.md section 5 C03', technique='exhaustive enumeration of seed factors, byte comparison of every emitted phrase with an independent reference encoder',
    text='Same enumeration as C01 with a different oracle: every phrase emitted by polyseed_encode must be byte-identical to the phrase computed by the reference model (README bit layout, golden word lists, coin XOR, separator, NFC), the stored check value must equal the reference GF(2048) value, and re-encoding after unrelated operations must give the same bytes. A bit-linear packing is pinned by the single-bit seeds and their pairs, which are enumerated completely.',
    note='Trusted: ' + TB + '.'),
+ 'C10': dict(engine='E1', design_ref='DESIGN.md section 5 C10', technique='explicit-state BFS over enable/create/reload/recode/crypt/free histories to fixpoint, all 32 feature values x 4 entry points in every state',
+   text='Breadth-first search of the real library over sequences of enable_features (14 arguments incl. high bits), create (13 arguments), store/load, encode/decode, crypt and free until no new state appears; in every state all 32 five-bit feature values are presented to load, decode_explicit, decode and create and must be refused exactly when they contain a bit outside (mask | encrypted); enable returns popcount(arg & 7); feature queries return exactly the stored user bits.',
+   note='Trusted: ' + TB + '. Sequences are exhaustive for the stated alphabet (fixpoint), seeds/languages/coins inside the battery are fixed representatives.'),
+ 'C12': dict(engine='E1+E2', design_ref='DESIGN.md section 5 C12', technique='explicit-state BFS over password-operation histories to fixpoint + exhaustive per-byte enumeration of KDF masks',
+   text='E1: one or two seeds, 7 passwords (empty, ASCII, composed/decomposed/compatibility-equivalent non-ASCII, 400 characters), crypt/reload/recode/free to fixpoint with every state compared with the model (XOR, truncate, toggle, re-checksum) and every KDF call compared byte for byte (NFKD password without terminator, salt, 10000, 32). E2: the stub returns every value of every mask byte, all 256 x 64 combinations at the truncation corner; result must equal the model, be loadable/encodable, and a second application must restore the original.',
+   note='Trusted: ' + TB + '. 2^256 masks are covered byte-wise (XOR acts byte-wise, the only cross-byte effect is the check value, which is compared for every case).'),
+ 'C13': dict(engine='E1', design_ref='DESIGN.md section 5 C13', technique='explicit-state BFS over API histories of the real library to fixpoint, reference model compared on every transition and in every state',
+   text='All reachable states of the 2-slot (thorough: 3-slot, 483 420 states) API machine over a closed alphabet of 27 (49) operations are visited; each transition status/output equals the abstract model, and in every new state every live seed is observed (store, getters, KDF inputs for 2 coins, phrases in all 10 languages, reload, decode in 3 languages) and must equal the model seed, with queries leaving the state key unchanged. Hidden state is part of the key, so it cannot be merged away.',
+   note='Trusted: ' + TB + '. Bounded by the alphabet (argument domains) and the number of slots, not by depth.'),
+ 'C15': dict(engine='E1+E2', category='fault_enumeration', design_ref='DESIGN.md section 5 C15', technique='allocation-fault arming as a state component of the explicit-state search + entry point x outcome class x failing-request enumeration',
+   text='In the E1 search an allocation fault can be armed in every state; every transition is therefore executed fault-free and with its allocation request failing, and exploration continues after the failure. After every call the ledger must equal the number of live seeds, no unknown/repeated/NULL pointer may reach free, free(NULL) makes no dependency call, a fired fault yields the memory status. e2_fault crosses each entry point and outcome class (OK, word count, language, multiple languages, checksum, 6 format causes, unsupported) with fail_at in {none,0,1} and with injected and libc allocators.',
+   note='Trusted: ' + TB + '. Blocks are junk-filled, so reliance on zeroed memory shows as a model mismatch.'),
+ 'C18': dict(engine='E1+E2', design_ref='DESIGN.md section 5 C18', technique='explicit-state BFS over injection sequences (16 tables) to fixpoint with call-log oracle, single-bit random tapes, link audit of undefined symbols',
+   text='E1 profile inject: all sequences of polyseed_inject over 2 tables x 8 NULL patterns (caller struct poisoned right after the call), create, free, free(NULL), armed fault, to fixpoint; every create/free must call exactly the currently injected time/alloc/free or libc when the entry is NULL (counting wrappers), random bytes requested once, 19 bytes, written inside the new block. E2 tapes: 152 single-bit and 152 single-zero-bit tapes, byte-18 values, bytes beyond 19, extreme clocks. Link audit: no undefined symbol beyond the permitted libc helpers.',
+   note='Trusted: ' + TB + ', nm.'),
  'C02': dict(engine='E2', design_ref='DESIGN.md section 5 C02', technique='complete enumeration of GF(2^11) one-word polynomials x check values through load, distance conditions on the library table, phrases x 16 x 2047 substitutions and 120 swaps',
    text='All 15 x 2048 x 2048 (position, value, check value) triples go through polyseed_load and exactly the reference product may be accepted; additivity is checked through the create path on all pairs of basis bits (thorough: all pairs of one-word polynomials at 16 position pairs); from the library table every single-word difference must contribute non-zero and no two positions may contribute equally (transposition); base phrases with every word substituted and every pair swapped are decoded by both decoders.',
    note='Trusted: ' + TB + '. The 2^165 x positions space is reduced by GF(2)-linearity, itself checked exhaustively on the field.'),
